@@ -58,6 +58,11 @@ void harness(void)
   q            = M_new_query();
   tok          = M_ntok - 1;
   q->using_tcp = (M_ch.flags & ARES_FLAG_USEVC) ? ARES_TRUE : ARES_FALSE;
+#if PREATTACHED
+  /* read_answers() may hand the same request to ares_send_query() twice in one flush (two retry-inducing replies in
+   * one read): the second time it is already in flight and must be re-registered, not registered twice */
+  if (old != NULL) M_attach(q, old, 1004);
+#endif
   q->try_count = vp_range(0, 5);
   VP_ASSUME(q->try_count < NSRV * M_ch.tries); /* ares_requeue_query's budget check let it through */
   tries0  = q->try_count;
@@ -67,7 +72,8 @@ void harness(void)
 
   for (k = 0; k < RQ_calls; k++)
     if (RQ_query[k] == q) q_requeued++;
-  VP_ASSERT(q_requeued <= 1, "a request is handed to requeue at most once per send attempt");
+  /* (a request that was already in flight on the failing connection is additionally requeued by the teardown) */
+  VP_ASSERT(q_requeued <= 1 + PREATTACHED, "a request is handed to requeue at most once per send attempt");
   VP_ASSERT(M_writes - writes0 <= 1, "one send attempt transmits the request at most once");
   if (q_requeued) {
     /* the send attempt failed and was handed on: it must count against the retry budget */
@@ -103,6 +109,22 @@ void harness(void)
   }
   if (sib != NULL && M_cb_count[sibtok] == 1) VP_WITNESS("sibling completed");
   if (M_reentered) VP_WITNESS("callback re-entered cancel");
+  /* link-state invariant: every request in flight has exactly one deadline entry and one connection entry */
+  {
+    ares_llist_node_t *n;
+    size_t             inflight = 0;
+    for (n = ares_llist_node_first(M_ch.all_queries); n != NULL; n = ares_llist_node_next(n)) {
+      ares_query_t *lq = ares_llist_node_val(n);
+      VP_ASSERT((lq->conn != NULL) == (lq->node_queries_to_conn != NULL) && (lq->conn != NULL) == (lq->node_queries_by_timeout != NULL),
+                "a request is on a connection iff it is in that connection's list and in the timeout index");
+      if (lq->conn != NULL) {
+        inflight++;
+        VP_ASSERT(vsock[lq->conn->fd].state == 1, "a request never sits on a closed connection");
+      }
+    }
+    VP_ASSERT(ares_slist_len(M_ch.queries_by_timeout) == inflight, "the timeout index holds exactly one entry per request in flight (no stale deadline)");
+    VP_ASSERT(ares_htable_szvp_num_keys(M_ch.queries_by_qid) == ares_llist_len(M_ch.all_queries), "qid index = live requests");
+  }
   VP_ASSERT(vp_lock_depth == 0, "channel lock balanced");
   VP_WITNESS("end");
 }
